@@ -71,7 +71,39 @@ def run(tier, seed):
                 rep.violation(clause, ES.signature(tr, step, clause), {'script': tr['_script'], 'failing_step': step, 'detail': tr.get('_detail')},
                               what='extend-split %s at step %d of %s' % ({k: cfg[k] for k in ('D', 'lmin', 'lmax', 'version', 'nrbe', 'auto', 'single')}, step, tr['origin']))
     cell_runs(rep, tier)
+    fault_runs(rep, tier)
     return rep.finish()
+
+
+def fault_runs(rep, tier):
+    """a fault at a particular point: the user's model raises once in the middle of an evaluation step of the extend-split / cell strategy and the
+    caller continues the refinement on the same object; every multilinear function must still be integrated exactly at the next stop"""
+    from harness.drivers import driver_pipeline as DP
+    from harness.drivers.c05_result import faulty_run
+    cfgs = [dict(strategy='extendsplit', D=2, lmin=1, lmax=2, func='multilin', norm=np.inf), dict(strategy='extendsplit', D=2, lmin=1, lmax=2, func='multilin', norm=np.inf, auto=True),
+            dict(strategy='cell', D=2, lmin=2, lmax=2, func='multilin', norm=np.inf)]
+    if tier == 'thorough':
+        cfgs.append(dict(strategy='extendsplit', D=3, lmin=1, lmax=2, func='multilin', norm=np.inf))
+    for c in cfgs:
+        for kfault in ((40, 110) if tier == 'quick' else (5, 25, 40, 70, 110, 160, 240, 400)):
+            name = '%s D=%d (%d,%d)%s, model raises once at evaluation %d' % (c['strategy'], c['D'], c['lmin'], c['lmax'], ' auto' if c.get('auto') else '', kfault)
+            lims = {'tol': -1.0, 'min': 1, 'max': 130 if c['strategy'] != 'cell' else 60}
+            try:
+                S, rec, ret, nfaults = faulty_run(dict(c, timeout=120), kfault, lims)
+            except impl.Timeout:
+                rep.exclude(name + ': timeout')
+                continue
+            except Exception as ex:
+                rep.exclude('%s: continuing after the fault raised %r (judged by the C05 check)' % (name, ex))
+                continue
+            res = np.atleast_1d(np.asarray(ret[3], dtype=float))
+            exact = np.atleast_1d(np.asarray(S['ref'], dtype=float))
+            bad = [[j, float(res[j]), float(exact[j])] for j in range(1, len(exact)) if abs(res[j] - exact[j]) > 1e-10 * max(1.0, abs(exact[j]))]
+            rep.count(1, key=('fault', name))
+            rep.residual('multilinear_exact_after_fault', not bad)
+            if bad:
+                rep.violation('C04_MultilinearExact', {'strategy': c['strategy'], 'fault': True}, {'config': str(c), 'fault_at': kfault, 'faults': nfaults, 'bad': bad},
+                              what='%s (%d fault): multilinear functions no longer exact: %s' % (name, nfaults, bad[:2]))
 
 
 def es_light(rep, seed):
